@@ -29,6 +29,8 @@ structure Inv (c : Cfg) (s : State) : Prop where
   rf : s.rpc ≠ .failed
   perm : (s.putLog.map Prod.snd).Perm (s.gotLog.map Prod.snd ++ (itemsOf s.queue).map Prod.snd)
   hist : ∀ pg ∈ s.hist, (pg.1.map Prod.snd).Perm (pg.2.map Prod.snd)
+  /-- a complete token set means every supplier's marker has been enqueued -/
+  nme : c.m ≤ s.used → cntS SPc.noMark s.sups = 0
 
 /-- all `≥` facts about the consumer counts that follow from "consumer `j` is `a`" -/
 macro "cfacts" h:ident : tactic => `(tactic| (
@@ -43,7 +45,7 @@ macro "sfacts" h:ident : tactic => `(tactic| (
 /-- numeric part of a step of consumer `j` (`h : s.cons[j]? = some a`, `hpc : a.pc = …`); the
     `rn` clause is discharged with `hnr : s.rpc ≠ .get` -/
 macro "cfin" h:ident hpc:ident hnr:ident : tactic => `(tactic| (
-  refine ⟨?_, ?_, ?_, ?_, ?_, ?_, ?_, ?_, ?_, ?_, ?_, ?_, ?_, ?_⟩ <;>
+  refine ⟨?_, ?_, ?_, ?_, ?_, ?_, ?_, ?_, ?_, ?_, ?_, ?_, ?_, ?_, ?_⟩ <;>
     simp only [cntC_set $h, List.length_set, marksOf_append_mark, itemsOf_append_mark] <;>
     simp only [$hpc:ident, CPc.isChk2, CPc.isReput, CPc.isLock, CPc.isTake, CPc.isGive, CPc.isTest,
       CPc.isUnlT, CPc.isUnlF, CPc.isExtra, CPc.isDone, ind_true, ind_false, usedFull,
@@ -51,7 +53,7 @@ macro "cfin" h:ident hpc:ident hnr:ident : tactic => `(tactic| (
     first | assumption | omega | (intro hr; exact absurd hr $hnr) | (intro _; omega) | skip))
 
 macro "sfin" h:ident hpc:ident : tactic => `(tactic| (
-  refine ⟨?_, ?_, ?_, ?_, ?_, ?_, ?_, ?_, ?_, ?_, ?_, ?_, ?_, ?_⟩ <;>
+  refine ⟨?_, ?_, ?_, ?_, ?_, ?_, ?_, ?_, ?_, ?_, ?_, ?_, ?_, ?_, ?_⟩ <;>
     simp only [cntS_set $h, List.length_set, marksOf_append_mark, itemsOf_append_mark,
       marksOf_append_item, itemsOf_append_item] <;>
     simp only [$hpc:ident, SPc.isPe1, SPc.notStarted, SPc.noMark, ind_true, ind_false, usedFull,
@@ -67,9 +69,10 @@ theorem room_of_empty (c : Cfg) (s : State) (h : s.queue = []) : room c s = true
   simp only [room, h, List.length_nil, Bool.or_eq_true, beq_iff_eq, decide_eq_true_eq]
   omega
 
+set_option maxHeartbeats 1000000 in
 theorem inv_step (c : Cfg) (hm : 1 ≤ c.m) (hn : 1 ≤ c.n) (s s' : State) (a : Act)
     (hi : Inv c s) (hs : Step c s a s') : Inv c s' := by
-  obtain ⟨lenS, lenC, tok, spareEq, mkr, mutex, wLt, wEq, fifo, noItems, rn, rf, perm, hist⟩ := hi
+  obtain ⟨lenS, lenC, tok, spareEq, mkr, mutex, wLt, wEq, fifo, noItems, rn, rf, perm, hist, nme⟩ := hi
   have hlock := ind_le s.lock
   have hE := ind_le s.extraOut
   cases hs with
@@ -99,7 +102,7 @@ theorem inv_step (c : Cfg) (hm : 1 ≤ c.m) (hn : 1 ≤ c.n) (s s' : State) (a :
     exact fifoOk_append_mark _ _
   | sRetry i a h hw hroom hdue hstop =>
     sfacts h
-    refine ⟨?_, ?_, ?_, ?_, ?_, ?_, ?_, ?_, ?_, ?_, ?_, ?_, ?_, ?_⟩ <;>
+    refine ⟨?_, ?_, ?_, ?_, ?_, ?_, ?_, ?_, ?_, ?_, ?_, ?_, ?_, ?_, ?_⟩ <;>
       simp only [cntS_set h, List.length_set] <;> first | assumption | omega | skip
     exact fifo_set _ h (by simp) fifo
   | sStop i a h hw hroom hdue hstop =>
@@ -190,6 +193,10 @@ theorem inv_step (c : Cfg) (hm : 1 ≤ c.m) (hn : 1 ≤ c.n) (s s' : State) (a :
         have m2 := cntS_zero_mem _ _ e2 b (mem_of_getElem? hi)
         have m3 := cntS_zero_mem _ _ e3 b (mem_of_getElem? hi)
         cases hb : b.pc <;> simp [hb] at m1 m2 m3 ⊢
+    have hnm : c.m ≤ s.used + 1 → cntS SPc.noMark s.sups = 0 := by
+      intro hu2
+      have := wLt hu
+      simp only [hpc, CPc.isGive, ind_true] at *; omega
     cfin h hpc hnr
   | cTest j a h hpc =>
     cfacts h
@@ -226,7 +233,7 @@ theorem inv_step (c : Cfg) (hm : 1 ≤ c.m) (hn : 1 ≤ c.n) (s s' : State) (a :
     cfacts h
     have hnr : s.rpc ≠ .get := by
       intro hr; have := (rn hr).2 a (mem_of_getElem? h); rw [this] at hw; simp [CPc.waiting] at hw
-    refine ⟨?_, ?_, ?_, ?_, ?_, ?_, ?_, ?_, ?_, ?_, ?_, ?_, ?_, ?_⟩ <;>
+    refine ⟨?_, ?_, ?_, ?_, ?_, ?_, ?_, ?_, ?_, ?_, ?_, ?_, ?_, ?_, ?_⟩ <;>
       simp only [cntC_set h, List.length_set] <;>
       first | assumption | omega | (intro hr; exact absurd hr hnr) | skip
   | cStop j a h hw hb hdue hstop =>
@@ -248,7 +255,7 @@ theorem inv_step (c : Cfg) (hm : 1 ≤ c.m) (hn : 1 ≤ c.n) (s s' : State) (a :
     · have := room_of_empty c s (hempty (Or.inr hpc)); simp [cBlocked, hpc, this] at hb
   -- ------------------------------------------------------------ renew
   | rStartOk hr hall hf =>
-    refine ⟨lenS, lenC, tok, spareEq, mkr, mutex, wLt, wEq, fifo, noItems, ?_, ?_, perm, hist⟩
+    refine ⟨lenS, lenC, tok, spareEq, mkr, mutex, wLt, wEq, fifo, noItems, ?_, ?_, perm, hist, nme⟩
     · intro _; exact ⟨by simpa [usedFull] using hf, hall⟩
     · simp
   | rStartFail hr hall hf =>
@@ -279,7 +286,7 @@ theorem inv_step (c : Cfg) (hm : 1 ≤ c.m) (hn : 1 ≤ c.n) (s s' : State) (a :
       cases hl : s.lock with
       | false => rfl
       | true => simp only [hl, ind_true] at mutex; omega
-    refine ⟨?_, ?_, ?_, ?_, ?_, ?_, ?_, ?_, ?_, ?_, ?_, ?_, ?_, ?_⟩ <;>
+    refine ⟨?_, ?_, ?_, ?_, ?_, ?_, ?_, ?_, ?_, ?_, ?_, ?_, ?_, ?_, ?_⟩ <;>
       simp only [cntC_replicate, cntS_replicate, freshCon, freshSup, List.length_replicate, hrest, hlk,
         CPc.isChk2, CPc.isReput, CPc.isLock, CPc.isTake, CPc.isGive, CPc.isTest, CPc.isUnlT, CPc.isUnlF,
         CPc.isExtra, CPc.isDone, SPc.isPe1, SPc.notStarted, SPc.noMark, ind_true, ind_false, marksOf,
@@ -296,18 +303,112 @@ theorem inv_step (c : Cfg) (hm : 1 ≤ c.m) (hn : 1 ≤ c.n) (s s' : State) (a :
     have := noItems (rn hr).1
     rw [hq] at this; simp [itemsOf] at this
   | rRetry hr hq hdue hstop =>
-    exact ⟨lenS, lenC, tok, spareEq, mkr, mutex, wLt, wEq, fifo, noItems, rn, rf, perm, hist⟩
+    exact ⟨lenS, lenC, tok, spareEq, mkr, mutex, wLt, wEq, fifo, noItems, rn, rf, perm, hist, nme⟩
   | rStop hr hq hdue hstop =>
-    refine ⟨lenS, lenC, tok, spareEq, mkr, mutex, wLt, wEq, fifo, noItems, ?_, ?_, perm, hist⟩
+    refine ⟨lenS, lenC, tok, spareEq, mkr, mutex, wLt, wEq, fifo, noItems, ?_, ?_, perm, hist, nme⟩
     · intro hh; cases hh
     · simp
   | setStop hstop =>
-    exact ⟨lenS, lenC, tok, spareEq, mkr, mutex, wLt, wEq, fifo, noItems, rn, rf, perm, hist⟩
+    exact ⟨lenS, lenC, tok, spareEq, mkr, mutex, wLt, wEq, fifo, noItems, rn, rf, perm, hist, nme⟩
   | tick hnd =>
-    exact ⟨lenS, lenC, tok, spareEq, mkr, mutex, wLt, wEq, fifo, noItems, rn, rf, perm, hist⟩
+    exact ⟨lenS, lenC, tok, spareEq, mkr, mutex, wLt, wEq, fifo, noItems, rn, rf, perm, hist, nme⟩
+
+/-- what `renew` finds when it takes the marker off the queue -/
+theorem renew_facts (c : Cfg) (s : State) (rest : List QItem) (hi : Inv c s) (hr : s.rpc = .get)
+    (hq : s.queue = .mark :: rest) :
+    rest = [] ∧ s.spare = 0 ∧ s.applied = 0 ∧ s.used = c.m ∧ s.lock = false ∧ s.extraOut = true
+      ∧ ∀ a ∈ s.sups, a.pc = .ended := by
+  obtain ⟨lenS, lenC, tok, spareEq, mkr, mutex, wLt, wEq, fifo, noItems, rn, rf, perm, hist, nme⟩ := hi
+  have hE := ind_le s.extraOut
+  obtain ⟨hu2, hall⟩ := rn hr
+  have z : ∀ q : CPc → Bool, q .done = false → cntC q s.cons = 0 := by
+    intro q hq2
+    exact cntC_zero_of_all q _ (fun a ha => by rw [hall a ha]; exact hq2)
+  have z1 := z CPc.isChk2 rfl; have z2 := z CPc.isReput rfl; have z3 := z CPc.isLock rfl
+  have z4 := z CPc.isTake rfl; have z5 := z CPc.isGive rfl; have z6 := z CPc.isTest rfl
+  have z7 := z CPc.isUnlT rfl; have z8 := z CPc.isUnlF rfl; have z9 := z CPc.isExtra rfl
+  have hni := noItems hu2
+  have hpart := cntS_partition s.sups
+  rw [hq] at mkr hni
+  simp only [marksOf, itemsOf] at mkr hni
+  have hrest : rest = [] := queue_nil_of rest hni (by omega)
+  have hlk : s.lock = false := by
+    cases hl : s.lock with
+    | false => rfl
+    | true => simp only [hl, ind_true] at mutex; omega
+  have hx : s.extraOut = true := by
+    cases hx : s.extraOut with
+    | true => rfl
+    | false => simp only [hx, ind_false] at mkr; omega
+  refine ⟨hrest, by omega, by omega, by omega, hlk, hx, ?_⟩
+  have e1 : cntS SPc.notStarted s.sups = 0 := by omega
+  have e2 : cntS SPc.isPe1 s.sups = 0 := by omega
+  have e3 : cntS SPc.noMark s.sups = 0 := by omega
+  intro b hb
+  have m1 := cntS_zero_mem _ _ e1 b hb
+  have m2 := cntS_zero_mem _ _ e2 b hb
+  have m3 := cntS_zero_mem _ _ e3 b hb
+  cases hb : b.pc <;> simp [hb] at m1 m2 m3 ⊢
+
+/-- once every consumer's iteration has ended, the token set is complete -/
+theorem used_full_of_all_done (c : Cfg) (hn : 1 ≤ c.n) (s : State) (hi : Inv c s)
+    (hall : ∀ a ∈ s.cons, a.pc = .done) : c.m ≤ s.used := by
+  cases hc : s.cons with
+  | nil => have := hi.lenC; simp [hc] at this; omega
+  | cons b l =>
+    have hb : s.cons[0]? = some b := by simp [hc]
+    have hd := hall b (mem_of_getElem? hb)
+    have h1 := cntC_ge CPc.isDone hb
+    simp only [hd, CPc.isDone, ind_true] at h1
+    by_cases hu : c.m ≤ s.used
+    · exact hu
+    · have := hi.wLt (by omega); omega
+
+/-- the state at the end of a round: nothing but the one extra marker is left -/
+theorem round_end_facts (c : Cfg) (hn : 1 ≤ c.n) (s : State) (hi : Inv c s)
+    (hall : ∀ a ∈ s.cons, a.pc = .done) :
+    s.queue = [.mark] ∧ s.spare = 0 ∧ s.applied = 0 ∧ s.used = c.m ∧ s.lock = false
+      ∧ ∀ a ∈ s.sups, a.pc = .ended := by
+  have hu2 := used_full_of_all_done c hn s hi hall
+  obtain ⟨lenS, lenC, tok, spareEq, mkr, mutex, wLt, wEq, fifo, noItems, rn, rf, perm, hist, nme⟩ := hi
+  have hE := ind_le s.extraOut
+  have z : ∀ q : CPc → Bool, q .done = false → cntC q s.cons = 0 := by
+    intro q hq2
+    exact cntC_zero_of_all q _ (fun a ha => by rw [hall a ha]; exact hq2)
+  have z1 := z CPc.isChk2 rfl; have z2 := z CPc.isReput rfl; have z3 := z CPc.isLock rfl
+  have z4 := z CPc.isTake rfl; have z5 := z CPc.isGive rfl; have z6 := z CPc.isTest rfl
+  have z7 := z CPc.isUnlT rfl; have z8 := z CPc.isUnlF rfl; have z9 := z CPc.isExtra rfl
+  have hni := noItems hu2
+  have hw := wEq hu2
+  have hpart := cntS_partition s.sups
+  have hlk : s.lock = false := by
+    cases hl : s.lock with
+    | false => rfl
+    | true => simp only [hl, ind_true] at mutex; omega
+  have e1 : cntS SPc.notStarted s.sups = 0 := by omega
+  have e2 : cntS SPc.isPe1 s.sups = 0 := by omega
+  have e3 : cntS SPc.noMark s.sups = 0 := nme hu2
+  have hm1 : marksOf s.queue = 1 := by omega
+  refine ⟨?_, by omega, by omega, by omega, hlk, ?_⟩
+  · have hl := length_eq_items_marks s.queue
+    rw [hni, hm1] at hl
+    cases hq : s.queue with
+    | nil => simp [hq] at hl
+    | cons x r =>
+      cases r with
+      | cons y r2 => simp [hq] at hl
+      | nil =>
+        cases x with
+        | mark => rfl
+        | item i v => simp [hq, itemsOf] at hni
+  · intro b hb
+    have m1 := cntS_zero_mem _ _ e1 b hb
+    have m2 := cntS_zero_mem _ _ e2 b hb
+    have m3 := cntS_zero_mem _ _ e3 b hb
+    cases hb : b.pc <;> simp [hb] at m1 m2 m3 ⊢
 
 theorem inv_init (c : Cfg) (hm : 1 ≤ c.m) : Inv c (init c) := by
-  refine ⟨?_, ?_, ?_, ?_, ?_, ?_, ?_, ?_, ?_, ?_, ?_, ?_, ?_, ?_⟩ <;>
+  refine ⟨?_, ?_, ?_, ?_, ?_, ?_, ?_, ?_, ?_, ?_, ?_, ?_, ?_, ?_, ?_⟩ <;>
     simp only [init, cntC_replicate, cntS_replicate, freshCon, freshSup, List.length_replicate,
       CPc.isChk2, CPc.isReput, CPc.isLock, CPc.isTake, CPc.isGive, CPc.isTest, CPc.isUnlT, CPc.isUnlF,
       CPc.isExtra, CPc.isDone, SPc.isPe1, SPc.notStarted, SPc.noMark, ind_true, ind_false, marksOf,
